@@ -1,15 +1,43 @@
 import RisorModel.Util
 import RisorModel.C01.Decode
 import RisorModel.C01.Compile
+import RisorModel.C01.VM
 /-! Line-protocol front end of the C01 model.
   `eval <sexp>` → `ok <value> <stdout-hex>` | `err <class> <stdout-hex>` | `oof` | `unsupported <what>` -/
 namespace Risor.C01
+
+partial def showVVal (m : VM) (v : VVal) : String :=
+  match v with
+  | .nil => "(nil)"
+  | .bool b => if b then "(bool 1)" else "(bool 0)"
+  | .int i => "(int " ++ toString i ++ ")"
+  | .str s => "(str " ++ Util.toHexField (Util.strBytes s) ++ ")"
+  | .list r => "(list" ++ String.join ((m.heap.getD r []).map (fun x => " " ++ showVVal m x)) ++ ")"
+  | .fn _ _ => "(fn)"
+  | .builtin n => "(builtin " ++ n ++ ")"
+  | _ => "(other)"
+
+def showVM (r : VRes × VM) : String :=
+  let out := Util.toHexField (Util.strBytes (String.join (r.2.out.reverse.map (· ++ "\n"))))
+  match r.1 with
+  | .done v => "ok\t" ++ showVVal r.2 v ++ "\t" ++ out
+  | .err c => "err\t" ++ c ++ "\t" ++ out
+  | .running => "oof\t-\t" ++ out
+  | .unsupported w => "unsupported\t" ++ w ++ "\t" ++ out
 
 def handle : List String → String
   | ["eval", sx] =>
     match decodeProg sx with
     | none => "error\tcannot decode the program"
     | some p => showOutcome (runProg 200000 p)
+  | ["vmrun", sx, globals] =>
+    match decodeProg sx with
+    | none => "error\tcannot decode the program"
+    | some p =>
+      let gs := (globals.splitOn ",").filter (· ≠ "")
+      match compileProg gs p with
+      | .error _ => "err\tcompile\t-"
+      | .ok codes => showVM (runCodes 2000000 gs codes)
   | ["compile", sx, globals] =>
     match decodeProg sx with
     | none => "error\tcannot decode the program"
